@@ -1,8 +1,10 @@
 package main
 
 import (
+	"container/heap"
 	"fmt"
 	"reflect"
+	"runtime/debug"
 	"sort"
 	"strings"
 	"time"
@@ -24,8 +26,9 @@ type recKind struct {
 	Type uint16
 	Raw  bool // enter through Push(typ, raw) instead of PushMessage
 	Nil  bool
-	Wrap bool // raw records whose header carries sequence + 2^32: not a 32-bit sequence number, Push must refuse it and nothing may happen
-	TS   int  // timestamp variant: records of one event normally share a timestamp, these do not; -1 = one tick before the virtual present
+	Wrap bool   // raw records whose header carries sequence + 2^32: not a 32-bit sequence number, Push must refuse it and nothing may happen
+	Body string // realistic record text (appended to the raw text / put into RawData)
+	TS   int    // timestamp variant: records of one event normally share a timestamp, these do not; -1 = one tick before the virtual present
 }
 
 var recKinds = map[string]recKind{
@@ -44,6 +47,15 @@ var recKinds = map[string]recKind{
 	"midNow":    {Name: "midNow", Type: 1300, TS: -1},
 	"midRawNow": {Name: "midRawNow", Type: 1300, Raw: true, TS: -1},
 	"nil":       {Name: "nil", Nil: true},
+	// records with the text a kernel writes: a SYSCALL that announces two PATH records, PATH records, an EXECVE that
+	// announces three arguments - reassembly goes by type and sequence, not by what a body announces
+	"sysItems":    {Name: "sysItems", Type: 1300, Body: "arch=c000003e syscall=257 success=yes exit=3 a0=ffffff9c a1=7ffe a2=0 a3=0 items=2 ppid=1 pid=2 auid=1000 uid=0 gid=0 tty=pts0 ses=1 comm=\"x\" exe=\"/bin/x\" key=(null)"},
+	"sysItemsRaw": {Name: "sysItemsRaw", Type: 1300, Raw: true, Body: "arch=c000003e syscall=257 success=yes exit=3 a0=ffffff9c a1=7ffe a2=0 a3=0 items=2 ppid=1 pid=2 auid=1000 uid=0 gid=0 tty=pts0 ses=1 comm=\"x\" exe=\"/bin/x\" key=(null)"},
+	"pathBody":    {Name: "pathBody", Type: 1302, Body: "item=0 name=\"/etc/x\" inode=5 dev=fd:00 mode=0100644 ouid=0 ogid=0 rdev=00:00 nametype=NORMAL"},
+	"pathBodyRaw": {Name: "pathBodyRaw", Type: 1302, Raw: true, Body: "item=1 name=\"/etc/y\" inode=6 dev=fd:00 mode=0100644 ouid=0 ogid=0 rdev=00:00 nametype=CREATE"},
+	"execveBody":  {Name: "execveBody", Type: 1309, Body: "argc=3 a0=\"x\" a1=\"-l\""},
+	"finBody":     {Name: "finBody", Type: 1327, Body: "proctitle=2F62696E2F78002D6C"},
+	"finBodyRaw":  {Name: "finBodyRaw", Type: 1327, Raw: true, Body: "proctitle=2F62696E2F78002D6C"},
 	// the byte-level entry point for EOE records, and headers whose sequence does not fit 32 bits
 	"eoeRaw":     {Name: "eoeRaw", Type: 1320, Raw: true},
 	"eoeRawWrap": {Name: "eoeRawWrap", Type: 1320, Raw: true, Wrap: true},
@@ -122,6 +134,9 @@ type Config struct {
 	ReenterTickMaintain int
 	// HugeTimeout: 0 none, 1 = 250 years, 2 = the largest Duration ("never")
 	HugeTimeout int
+	// StreamOwnsSlice: the Stream treats the slice it is handed as its own, as a callee may: it appends to it (fills
+	// the spare capacity, if there is any, with a foreign message) and clears the elements when it is done.
+	StreamOwnsSlice bool
 }
 
 const farTimeout = int64(1) << 40
@@ -163,6 +178,9 @@ func (c Config) String() string {
 	if c.Recycle {
 		re += " recycled-message-structs"
 	}
+	if c.StreamOwnsSlice {
+		re += " stream-appends-to-and-clears-its-slice"
+	}
 	if c.ReenterTickMaintain > 0 {
 		re += fmt.Sprintf(" slow-stream(%d ticks)-then-Maintain", c.ReenterTickMaintain)
 	}
@@ -184,6 +202,7 @@ type shadowEvent struct {
 	created   time.Time
 	complete  bool
 	overtaken bool
+	bornAt    int // wide mode: number of deliveries made before this event's first record was pushed
 }
 
 type violation struct {
@@ -221,12 +240,39 @@ type Instance struct {
 	callbacks    int
 
 	viol []violation
+	dead bool // an API call panicked
+
+	// wide mode (scale scenarios: thousands of buffered events, all inside one window so that the stated order is the
+	// order of ord()): the same monitors with logarithmic bookkeeping instead of a walk over every pending event -
+	// a lazily cleaned min-heap for "the oldest buffered event", a decreasing stack of deliveries for "a higher
+	// sequence was delivered while this one was pending"
+	heapMin  evHeap
+	delivN   int
+	delStack []delivMark
 
 	// outcome digest pieces (for the vacuity gate)
 	delivLog []string
 }
 
 func (in *Instance) ord(s uint32) uint32 { return s - in.cfg.Base }
+
+func (in *Instance) wide() bool { return in.cfg.MaxInFlight >= 1000 }
+
+type delivMark struct {
+	idx int
+	ord uint32
+}
+
+type evHeap struct {
+	evs []*shadowEvent
+	ord func(uint32) uint32
+}
+
+func (h *evHeap) Len() int           { return len(h.evs) }
+func (h *evHeap) Less(i, j int) bool { return h.ord(h.evs[i].seq) < h.ord(h.evs[j].seq) }
+func (h *evHeap) Swap(i, j int)      { h.evs[i], h.evs[j] = h.evs[j], h.evs[i] }
+func (h *evHeap) Push(x interface{}) { h.evs = append(h.evs, x.(*shadowEvent)) }
+func (h *evHeap) Pop() interface{}   { n := len(h.evs); x := h.evs[n-1]; h.evs = h.evs[:n-1]; return x }
 
 // before is the order the property states: numbers that differ by more than 2^24-1 are
 // ordered as a uint32 roll-over (the larger one is the older one), otherwise numerically.
@@ -311,12 +357,26 @@ func (in *Instance) ReassemblyComplete(msgs []*auparse.AuditMessage) {
 	}
 
 	// M02
+	if in.wide() {
+		// the highest ord delivered since this event was born: the first mark at or after bornAt
+		i := sort.Search(len(in.delStack), func(i int) bool { return in.delStack[i].idx >= ev.bornAt })
+		if i < len(in.delStack) && in.delStack[i].ord > in.ord(s) {
+			ev.overtaken = true
+		}
+		for len(in.delStack) > 0 && in.delStack[len(in.delStack)-1].ord <= in.ord(s) {
+			in.delStack = in.delStack[:len(in.delStack)-1]
+		}
+		in.delStack = append(in.delStack, delivMark{in.delivN, in.ord(s)})
+		in.delivN++
+	}
 	if ev.overtaken {
 		in.fail("M02", "delivered-after-higher", "sequence %d (ord %d) delivered after a higher sequence although its first record was pushed before that delivery", s, in.ord(s))
 	}
-	for _, p := range in.pending {
-		if p != ev && before(p.seq, s) {
-			p.overtaken = true
+	if !in.wide() {
+		for _, p := range in.pending {
+			if p != ev && before(p.seq, s) {
+				p.overtaken = true
+			}
 		}
 	}
 	// Close must deliver ascending
@@ -341,6 +401,15 @@ func (in *Instance) ReassemblyComplete(msgs []*auparse.AuditMessage) {
 	if in.cfg.Recycle {
 		for _, m := range msgs {
 			in.free = append(in.free, m)
+		}
+	}
+	if in.cfg.StreamOwnsSlice {
+		full := msgs[:cap(msgs)]
+		for i := len(msgs); i < len(full); i++ {
+			full[i] = foreignMsg
+		}
+		for i := range msgs {
+			msgs[i] = nil
 		}
 	}
 	if in.cfg.ReenterTickMaintain > 0 && in.nesting == 0 && in.closed == 0 && !in.callIsClose && !in.reentered {
@@ -388,6 +457,9 @@ func (in *Instance) ReassemblyComplete(msgs []*auparse.AuditMessage) {
 	}
 }
 
+// foreignMsg is what a Stream with StreamOwnsSlice appends to the slices it is handed; it is never pushed.
+var foreignMsg = &auparse.AuditMessage{RecordType: 1300, Sequence: 0x7eadbeef, RawData: "appended by the stream"}
+
 func (in *Instance) EventsLost(count int) {
 	in.callbacks++
 	if !in.inCall {
@@ -422,6 +494,7 @@ func descRecs(ms []*msgRec) string {
 // NewInstance creates a fresh Reassembler under a fresh virtual clock.
 func NewInstance(cfg Config) *Instance {
 	in := &Instance{cfg: cfg, pending: map[uint32]*shadowEvent{}}
+	in.heapMin.ord = in.ord
 	in.clock = vtime.Install()
 	r, err := libaudit.NewReassembler(cfg.MaxInFlight, cfg.timeout(), in)
 	if err != nil || r == nil {
@@ -474,6 +547,16 @@ func (in *Instance) endCall(op Op) {
 
 // oldest returns the pending event with the smallest ord.
 func (in *Instance) oldest() *shadowEvent {
+	if in.wide() {
+		for in.heapMin.Len() > 0 {
+			top := in.heapMin.evs[0]
+			if in.pending[top.seq] == top {
+				return top
+			}
+			heap.Pop(&in.heapMin)
+		}
+		return nil
+	}
 	var o *shadowEvent
 	for _, p := range in.pending {
 		if o == nil || before(p.seq, o.seq) {
@@ -485,6 +568,34 @@ func (in *Instance) oldest() *shadowEvent {
 
 // Apply performs one op on the real object and runs the monitors.
 func (in *Instance) Apply(op Op) {
+	if in.dead {
+		return
+	}
+	// a panic inside an API call ends the process of a real caller: nothing pushed so far is delivered any more, no
+	// later call happens - no guarantee of any of the reassembler properties survives it.  Reported under every monitor;
+	// the instance (whose locks may be held) is not used again.
+	defer func() {
+		if r := recover(); r != nil {
+			if s, ok := r.(string); ok && strings.HasPrefix(s, "harness:") {
+				panic(r)
+			}
+			in.dead = true
+			st := string(debug.Stack())
+			if i := strings.Index(st, "panic("); i >= 0 {
+				st = st[i:]
+			}
+			if len(st) > 900 {
+				st = st[:900]
+			}
+			for _, m := range []string{"M01", "M02", "M03", "M10", "M19"} {
+				in.fail(m, "panic-in-call", "%v panicked: %v\n%s", op, r, st)
+			}
+		}
+	}()
+	in.applyOp(op)
+}
+
+func (in *Instance) applyOp(op Op) {
 	in.step++
 	if in.r == nil {
 		return
@@ -532,8 +643,11 @@ func (in *Instance) Apply(op Op) {
 		if k.Type != typeEOE {
 			ev := in.pending[op.Seq]
 			if ev == nil {
-				ev = &shadowEvent{seq: op.Seq, created: in.clock.T}
+				ev = &shadowEvent{seq: op.Seq, created: in.clock.T, bornAt: in.delivN}
 				in.pending[op.Seq] = ev
+				if in.wide() {
+					heap.Push(&in.heapMin, ev)
+				}
 			}
 			ev.msgs = append(ev.msgs, rec)
 			if terminating(k.Type) {
@@ -550,6 +664,9 @@ func (in *Instance) Apply(op Op) {
 				ts = time.Unix(1700000000, 123000000)
 			}
 			raw := fmt.Sprintf("audit(%d.%03d:%d): %s a=b", ts.Unix(), ts.Nanosecond()/1e6, op.Seq, rec.tag)
+			if k.Body != "" {
+				raw += " " + k.Body
+			}
 			// the caller's buffer is REUSED for every Push and overwritten as soon as Push has
 			// returned (what a receive loop with one read buffer does): Push must have copied it
 			in.rawBuf = append(in.rawBuf[:0], raw...)
@@ -571,6 +688,10 @@ func (in *Instance) Apply(op Op) {
 			}
 			if k.TS != 0 {
 				rec.ptr.Timestamp = in.stamp(k)
+			}
+			if k.Body != "" {
+				rec.ptr.RawData = fmt.Sprintf("audit(1700000000.123:%d): %s", op.Seq, k.Body)
+				rec.ptr.Timestamp = time.Unix(1700000000, 123000000).UTC()
 			}
 			in.r.PushMessage(rec.ptr)
 		}
@@ -650,6 +771,9 @@ func (in *Instance) checkStale(op Op) {
 
 // Ops returns the operations enabled in the current driver state.
 func (in *Instance) Ops() []Op {
+	if in.dead {
+		return nil
+	}
 	c := in.cfg
 	var ops []Op
 	if in.closed > 0 {
